@@ -572,6 +572,11 @@ impl proto::val_server::Val for broker::DataBroker {
 
         let mut updates: HashMap<i32, broker::EntryUpdate> = HashMap::with_capacity(1);
 
+        let data_point = match request.data_point {
+            Some(data_point) => data_point,
+            None => return Err(tonic::Status::invalid_argument("No data_point provided")),
+        };
+
         updates.insert(
             match get_signal(request.signal_id, &broker).await {
                 Ok(signal_id) => signal_id,
@@ -579,7 +584,7 @@ impl proto::val_server::Val for broker::DataBroker {
             },
             broker::EntryUpdate {
                 path: None,
-                datapoint: Some(broker::Datapoint::from(&request.data_point.unwrap())),
+                datapoint: Some(broker::Datapoint::from(&data_point)),
                 actuator_target: None,
                 entry_type: None,
                 data_type: None,
